@@ -26,6 +26,7 @@ type decision struct {
 	N      int
 	Chosen int
 	Pushes bool // the chosen alternative's constraint lives in its own solver frame
+	Kind   string
 }
 
 type deferred struct {
@@ -863,12 +864,12 @@ func (in *Interp) decide(alts []*smt.Term, kind string) int {
 	if len(feas) == 0 {
 		panic(pathAbort{"no feasible alternative at " + kind})
 	}
-	d := decision{N: n, Chosen: feas[0], Pushes: len(feas) > 1}
+	d := decision{N: n, Chosen: feas[0], Pushes: len(feas) > 1, Kind: kind}
 	if d.Pushes {
 		for _, alt := range feas[1:] {
 			p := make([]decision, pos+1)
 			copy(p, in.log)
-			p[pos] = decision{N: n, Chosen: alt, Pushes: true}
+			p[pos] = decision{N: n, Chosen: alt, Pushes: true, Kind: kind}
 			in.ex.pushWork(in, p)
 		}
 		in.sol.Push()
@@ -898,10 +899,10 @@ func (in *Interp) decideN(n int, kind string) int {
 	for alt := n - 1; alt >= 1; alt-- {
 		p := make([]decision, pos+1)
 		copy(p, in.log)
-		p[pos] = decision{N: n, Chosen: alt}
+		p[pos] = decision{N: n, Chosen: alt, Kind: kind}
 		in.ex.pushWork(in, p)
 	}
-	in.log = append(in.log, decision{N: n, Chosen: 0})
+	in.log = append(in.log, decision{N: n, Chosen: 0, Kind: kind})
 	in.res.Decisions++
 	return 0
 }
